@@ -82,6 +82,16 @@ def run_case(cs, ctx):
         import os as _os
         _os.makedirs(outdir)
         ctx.cov('existing_empty_directory')
+    if (not coverage_run) and (not rerun) and cs % 10 != 4 and cs % 25 == 8 and v['numinst'] >= 2:
+        # failure at a particular point: 1.txt cannot be written (a directory of that name is in the way), the
+        # run dies; the obstacle is removed and the same legal run must then succeed
+        import os as _os
+        import shutil as _sh
+        _os.makedirs(_os.path.join(outdir, '1.txt'))
+        failed = ge.run_generator(argv, cs ^ 0x77)
+        _sh.rmtree(_os.path.join(outdir, '1.txt'), ignore_errors=True)
+        ctx.cov('retry_after_a_run_that_died_half_way')
+        rerun = True
     res = ge.run_generator(argv, cs)
     ctx.cnt('generator_runs')
     if res['exit'] is not None or res['exc'] is not None:
